@@ -202,6 +202,34 @@ func runC13(c *eng.Ctx) {
 		}
 	}
 
+	// the next volume id is one above the largest id the master has heard of: every volume that becomes known through a
+	// heartbeat (read-only ones included) raises that maximum
+	if fn := c.NeedFunc("weed/topology", "(*Disk).doAddOrUpdateVolume"); fn != nil {
+		raise := eng.CallTo("topology.NodeImpl).UpAdjustMaxVolumeId", "topology.Node).UpAdjustMaxVolumeId", "topology.Disk).UpAdjustMaxVolumeId")
+		var newStores []ssa.Instruction
+		notFound := eng.FailEdges(fn, eng.BoolVal(true, func(v ssa.Value) bool {
+			ex, ok := v.(*ssa.Extract)
+			if !ok || ex.Index != 1 {
+				return false
+			}
+			lk, isL := ex.Tuple.(*ssa.Lookup)
+			return isL && lk.CommaOk && eng.MentionsField(lk.X, "Disk.volumes")
+		}))
+		for _, st := range startsOf(notFound) {
+			if hit, _ := eng.Search(st, func(in ssa.Instruction) bool {
+				mu, ok := in.(*ssa.MapUpdate)
+				return ok && eng.MentionsField(mu.Map, "Disk.volumes")
+			}, eng.SearchOpt{}); hit != nil {
+				newStores = append(newStores, hit)
+			}
+		}
+		if len(newStores) == 0 {
+			c.Undecided("ORDER-max-volume-id", eng.FuncName(fn), fn.Pos(), "registration of a new volume not found")
+		}
+		c.AfterAll("ORDER-max-volume-id", "every-new-volume-raises-the-maximum", fn, newStores, raise, nil,
+			"a volume registered for the first time raises the largest known volume id on every path (the next id handed out lies above every id in use)")
+	}
+
 	c.CheckLockPairs("PAIR-sequence", "weed/sequence", "MemorySequencer.sequenceLock", nil)
 	c.CheckLockPairs("PAIR-sequence", "weed/sequence", "EtcdSequencer.sequenceLock", nil)
 	c.Expect("PAIR-sequence", 4)
